@@ -41,6 +41,7 @@ type Case struct {
 	BuildH  *BuildHCase  `json:"buildh,omitempty"`
 	Interop *InteropCase `json:"interop,omitempty"`
 	Life    *LifeCase    `json:"life,omitempty"`
+	Special *SpecialCase `json:"special,omitempty"`
 }
 
 type Env struct {
